@@ -24,6 +24,9 @@ pub enum LogOp {
     Flip(usize, u8),
     /// cut the file to n bytes
     Truncate(usize),
+    /// drop the writer, open a reader, read n records and drop the reader WITHOUT draining it (what
+    /// recovery of a log does when it stops early); the next Append reopens in append mode
+    Peek(usize),
 }
 
 const LOG_PATH: &str = "verif.log";
@@ -94,6 +97,14 @@ pub fn run_log(ops: &[LogOp]) -> (Vec<Vec<u8>>, Option<String>, Vec<u8>) {
                 bytes.truncate(*n);
                 write_all(&fs, &bytes);
                 created = true;
+            }
+            LogOp::Peek(n) => {
+                writer = None;
+                if created {
+                    if let Ok(mut reader) = LogReader::new(Arc::clone(&fs), LOG_PATH, 0) {
+                        for _ in 0..*n { if reader.read_record().is_err() { break; } }
+                    }
+                }
             }
         }
     }
